@@ -94,7 +94,7 @@ def counters(ctx, P, rule="IBD-COUNTERS"):
     # max_time filter in run
     run = P.need("tsk_ibd_finder_run", "tables")
     src = " ".join(tu.src(run.body).split())
-    ctx.ob(rule, "run|max_time", re.search(r"time\s*>\s*self->max_time|>\s*self->max_time", src) is not None, tu.loc(run.node),
+    ctx.ob(rule, "run|max_time", re.search(r">\s*self->max_time|self->max_time\s*<[^=]", src) is not None, tu.loc(run.node),
            "ancestors older than max_time are not processed")
 
 
@@ -195,7 +195,7 @@ def finder_run(ctx, P, rule="IBD-RUN"):
     ctx.need(len(loops) >= 2, "tsk_ibd_finder_run: edge loop and child-ancestry loop")
     outer = loops[0]
     ex = [(n, c) for n, c in early_exits(F, outer, tu)]
-    bad = [(n, c) for n, c in ex if not (c and all(ERR.match(t) for t in c[:1])) and not (n.k == "BreakStmt" and c and re.search(r"> self->max_time", c[0]))]
+    bad = [(n, c) for n, c in ex if not (c and all(ERR.match(t) for t in c[:1])) and not (n.k == "BreakStmt" and c and re.search(r"> self->max_time|self->max_time <[^=]", c[0]))]
     ctx.ob(rule, "run|exits", not bad, tu.loc(bad[0][0]) if bad else tu.loc(run.node),
            "edge loop left early only on error or time > max_time" if not bad else "edge loop left early under %s" % (bad[0][1] or "no condition"))
     order = []
